@@ -570,7 +570,8 @@ def diff(self, axis=-1, scheme="backward", keepaxis=False, n=1):
             #newaxis = oldaxis.copy()
 
         else:
-            axisvalues = 0.5*(oldaxis.values[:-1]+oldaxis.values[1:])
+            # halve before adding: the sum of two integer labels may not fit their type
+            axisvalues = 0.5*oldaxis.values[:-1] + 0.5*oldaxis.values[1:]
             newaxis = Axis(axisvalues, name)
 
     else:
